@@ -69,12 +69,20 @@ def _date_world(c, off_value, extra_names=None):
 
         def offset(self, mjd, new_scale, eop_):
             Scale.calls.append((self.name, mjd, new_scale, eop_))
+            if str(new_scale) == "UTC" and Scale.off_utc is not None:
+                return Scale.off_utc
             return self.off if not callable(self.off) else self.off(new_scale)
 
         def __str__(self):
             return self.name
     Scale.calls = []
-    names = {"EopDb": types.SimpleNamespace(get=lambda mjd, **k: eop), "timedelta": sym_timedelta, "datetime": SymDatetimeUs,
+    Scale.off_utc = None      # the scale's offset to UTC (asked for by the constructor to find the UTC day of the instant); None: same as to TAI
+    Scale.lookups = []
+
+    def get(mjd, **k):
+        Scale.lookups.append(mjd)
+        return eop if Scale.off_utc is None else types.SimpleNamespace(tag="eop", at=mjd)
+    names = {"EopDb": types.SimpleNamespace(get=get), "timedelta": sym_timedelta, "datetime": SymDatetimeUs,
              "get_scale": lambda n: Scale(n, 0)}
     names.update(extra_names or {})
     w = c.world(names={DT: names})
@@ -88,17 +96,35 @@ def _(c):
     (any s, any offset); .d/.s invert it for 0 <= s < 86400; mjd = d + s/86400"""
     if not c.symbolic:
         return
-    d, s, off = c.integer("d"), c.real("s"), c.real("offset")
+    d, s, off = c.integer("d", lo=1), c.real("s"), c.real("offset")
+    c.require(sym.And(s >= 0, s < 2 * 86400), "clock reading")
     w, Scale, eop = _date_world(c, off)
-    sc = Scale("X", off)
+    utc = c.choice("scale", ["UTC", "other"]) == "UTC"
+    off_utc = c.real("offset_to_utc")
+    c.require(sym.And(off_utc > -86400, off_utc < 86400))
+    Scale.off_utc = off_utc
+    sc = Scale("UTC" if utc else "X", off)
     date = w.new(DATE, d, s, scale=sc)
     dd = object.__getattribute__(date, "__dict__")
     _d, _s = dd["_d"], dd["_s"]
     c.ensure("instant", 86400 * _d + _s == 86400 * d + s + off)
     c.ensure("normalised", sym.And(_s >= 0, _s < 86400))
     c.ensure("offset_kept", dd["_offset"] == off)
-    c.ensure("eop_lookup", bool(dd["eop"] is eop and len(Scale.calls) == 1 and Scale.calls[0][2] == "TAI" and Scale.calls[0][3] is eop))
-    c.ensure("eop_lookup.mjd", Scale.calls[0][1] == d + s / 86400)
+    # the Earth orientation parameters kept are those tabulated for the UTC day of the instant ("as tabulated by IERS for that day"): for a UTC date the day of its own
+    # reading; for another scale the day of reading + (offset to UTC) -- asked for again only when that is another day -- and the offset to TAI is computed with them
+    mjd = d + s / 86400
+    kept_at = dd["eop"].at
+    to_tai = [x for x in Scale.calls if str(x[2]) == "TAI"]
+    c.ensure("eop_lookup", bool(len(to_tai) == 1 and to_tai[0][3] is dd["eop"] and Scale.calls[-1] is to_tai[0]))
+    c.ensure("eop_lookup.mjd", to_tai[0][1] == mjd)
+    if utc:
+        c.ensure("eop_lookup.day", sym.And(kept_at == mjd, bool(len(Scale.lookups) == 1)))
+    else:
+        utc_mjd = mjd + off_utc / 86400
+        # (days are positive here: the whole-day part is int(), as in the code)
+        from pyvc.loader import _sym_int
+        c.ensure("eop_lookup.day", _sym_int(kept_at) == _sym_int(utc_mjd), using=["branch", "pre", "clock reading", "d.lo"], budget_ms=60000)
+        c.ensure("eop_lookup.asked_again_only_when_needed", sym.Or(kept_at == mjd, kept_at == utc_mjd))
     c.ensure("_mjd", date._mjd == _d + _s / 86400)
     # inverse, for a normalised clock reading
     c.require(sym.And(s >= 0, s < 86400), "clock reading in [0, 86400)")
@@ -202,6 +228,7 @@ def _(c):
         return
     d, s = c.integer("d"), c.real("s", lo=0, hi=86400, lo_strict=False)
     xa, xb = c.real("X_from"), c.real("X_to")  # scale offsets w.r.t. TAI (X = scale - TAI)
+    x_utc = c.real("X_utc")
     aligned = c.choice("aligned", [True, False])
 
     class Scale:
@@ -209,7 +236,9 @@ def _(c):
             self.name, self.x = name, x
 
         def offset(self, mjd, new_scale, eop_):
-            tgt = {"TAI": 0, "A": xa, "B": xb}[new_scale if isinstance(new_scale, str) else new_scale.name]
+            # ("UTC": asked for by the constructor to find the UTC day of the instant; the same EOP stand-in is returned for every day here -- the assumption of this
+            # contract -- so the value plays no role)
+            tgt = {"TAI": 0, "A": xa, "B": xb, "UTC": x_utc}[new_scale if isinstance(new_scale, str) else new_scale.name]
             return tgt - self.x
     eop = types.SimpleNamespace()
     A, B = Scale("A", xa), Scale("B", xb)
@@ -389,8 +418,9 @@ def _(c):
 
 
 def _grid_scales(tier, rng):
-    """every ordered pair of the 6 scales x 24 (quick) / 200 (thorough) instants 1973-2017 outside +-2 min of leap seconds, incl.
-    day boundaries (00:00:00, 23:59:59.999999) and microsecond-aligned random instants"""
+    """every ordered pair of the 6 scales x 24 (quick) / 200 (thorough) instants 1973-2017, incl. day boundaries (00:00:00, 23:59:59.999999) and
+    microsecond-aligned random instants; plus readings within 2.5 min of 0 h of the days TAI-UTC changes (2017-01-01; thorough: also 2015-07-01, 2012-07-01), the
+    inserted second itself excepted"""
     n = 24 if tier == "quick" else 200
     leaps = [41499, 41683, 42048, 42413, 42778, 43144, 43509, 43874, 44239, 44786, 45151, 45516, 46247, 47161, 47892, 48257,
              48804, 49169, 49534, 50083, 50630, 51179, 53736, 54832, 56109, 57204, 57754]
@@ -402,6 +432,14 @@ def _grid_scales(tier, rng):
         for a in range(6):
             for b in range(6):
                 yield {"d": d, "s": s, "a": a, "b": b}
+    # the minutes around a leap second (the instants inside the inserted second itself, which have no UTC reading, are avoided): readings, in the scale the date
+    # is given in, shortly before and after 0 h of the day TAI-UTC changes
+    for L in (56109, 57204, 57754)[: 1 if tier == "quick" else 3] if tier != "quick" else (57754,):
+        for (dd, ss) in ((L - 1, 86250.0), (L - 1, 86350.0), (L - 1, 86380.0), (L - 1, 86399.5), (L, 1.5), (L, 16.0), (L, 35.5), (L, 40.0), (L, 70.0), (L, 140.0)):
+            for a in range(6):
+                for b in range(6):
+                    if a != b:
+                        yield {"d": dd, "s": ss, "a": a, "b": b}
 
 
 @contract("C03", "scales.native", funcs=[f"{DATE}.change_scale", f"{DATE}.__init__", f"{DT}:Timescale.offset"], grid=_grid_scales, level="bounded")
